@@ -70,6 +70,20 @@ CHECKS = {
    note="app tree = root + one sub-app with two contexts each, <= 1 (quick) / 2 (thorough) failing start-up steps; GracefulExit "
         "raised by a loop callback (no OS signals, no gunicorn); part B on in-memory transports with a recording BaseSite, scripted "
         "handler durations, T=2 virtual ticks (random driver up to T=6); eager task start not reproduced by the stepping loop; " + TRUST),
+ "C14": dict(
+   technique="TLC model-checks the documented lookup rule as a structural TLA+ reference machine (UrlDispatch.tla) exhaustively over "
+             "small route tables, and decides, as an oracle trace specification (UrlDispatchTrace.tla), every observation recorded "
+             "from the real UrlDispatcher, url_for and normalize_path_middleware for the same TLC-enumerated (table, query) states "
+             "plus odd spellings",
+   text="Reference invariants (FixedBeatsVariable, LongestKeyFirst, RegistrationOrderAmongEqualKeys, NotAllowedIsComplete, "
+        "Deterministic) exhaustive for all tables of <= 2 entries (<= 3 over the core grammar) x all model queries; conformance of "
+        "the code decided by TLC on a stratified sample of those states (quick) or all 2-entry states (thorough) plus "
+        "percent-encoding/odd-spelling, url_for round-trip and redirect drivers.",
+   design_ref="DESIGN.md §4 C14",
+   note="paths of <= 3-4 segments over {a, b, ab, 1, ''}; methods GET/POST (+HEAD for static); regexes other than [^{}/]+, \\d+, .* "
+        "and custom rules/Views not modelled; sub-app take-over read from the add_subapp documentation; domain sub-apps consulted "
+        "first (doc/code discrepancy, reported not alarmed); harness uses make_mocked_request / the real HttpRequestParser and "
+        "private app._handle; " + TRUST),
 }
 
 NA_REASON = "check not built yet (in progress)"
